@@ -277,6 +277,67 @@ func runC18(c *Ctx) {
 		c.R.Check(bad26 == "", "R18.26", "the lexer does not take the width of a decoded rune from utf8.RuneLen", cpPkg, "no call of utf8.RuneLen on a rune that came out of a decoder",
 			"utf8.RuneLen is applied to a decoded rune ("+bad26+"): an invalid byte decodes to (RuneError, width 1) but RuneLen(RuneError) is 3 - the lexer skips two bytes it never looked at, which can be a line break, a closing quote or the end of a comment")
 	}
+	// R18.27 the text of a single-line comment ends where the line ends: in a file with CR LF line endings the carriage return in
+	// front of the line feed is part of the terminator. Where a comment is recorded behind a successful singleLineComment(), the
+	// text that is recorded is the result of strings.TrimSuffix / TrimRight with "\r" (D55).
+	{
+		isSL := func(b *ssa.BasicBlock) bool {
+			for _, f := range core.FactsAt(b) {
+				if cl, ok := f.Cond.(*ssa.Call); ok && f.Truth {
+					if g := cl.Call.StaticCallee(); g != nil && strings.HasSuffix(g.Name(), "singleLineComment") {
+						return true
+					}
+				}
+			}
+			return false
+		}
+		trimmed := func(v ssa.Value) bool {
+			cl, ok := core.Unspill(v).(*ssa.Call)
+			if !ok {
+				return false
+			}
+			n := core.StaticCalleeName(cl.Common())
+			if n != "strings.TrimSuffix" && n != "strings.TrimRight" {
+				return false
+			}
+			sv, isS := core.ConstString(cl.Call.Args[1])
+			return isS && strings.Contains(sv, "\r")
+		}
+		nS, bad := 0, ""
+		for _, fn := range pkgFuncs(p, cpPkg) {
+			for _, lit := range structLits([]*ssa.Function{fn}, "commentparser.Comment") {
+				if !isSL(lit.alloc.Block()) {
+					continue
+				}
+				if tv, ok := lit.fields["Text"]; ok {
+					nS++
+					if !trimmed(tv) && bad == "" {
+						bad = p.Pos(lit.alloc.Pos())
+					}
+				}
+			}
+			for _, call := range core.CallsIn(fn) {
+				g := call.Common().StaticCallee()
+				if g == nil || core.FuncPkgPath(g) != cpPkg || !isSL(call.Block()) || len(structLits([]*ssa.Function{g}, "commentparser.Comment")) == 0 {
+					continue
+				}
+				for _, a := range call.Common().Args {
+					if isString(a.Type()) {
+						nS++
+						if !trimmed(a) && bad == "" {
+							bad = p.Pos(call.Pos())
+						}
+					}
+				}
+			}
+		}
+		if nS == 0 {
+			c.R.Info("R18.27", "single-line comments: trailing carriage return", cpPkg, "not decided: no place found where a comment is recorded behind singleLineComment()")
+		} else {
+			c.R.Check(bad == "", "R18.27", "the text of a single-line comment is recorded without a trailing carriage return", cpPkg, fmt.Sprintf("%d places where a single-line comment is recorded", nS),
+				"the single-line comment recorded at "+bad+" keeps the carriage return of a CR LF line ending in its text (\"// abc\\r\\n\" gives \" abc\\r\")")
+		}
+	}
 	// R18.24 the end of the input is known from the offset, not from the decoded rune: utf8.RuneError is what the decoder returns
 	// for the end of the input AND for every invalid byte AND for a literal U+FFFD - a function of the lexer that compares a
 	// decoded rune with it also looks at the width (the second result), or lexing stops at the first such byte and the comments
